@@ -96,6 +96,25 @@ impl Tape {
         Tape { secs }
     }
 
+    /// Inverse of `from_bytes` up to the 16 bits a fuzz input carries per field (used to seed a
+    /// libFuzzer corpus with library-generated tapes).
+    pub fn to_bytes(&self, specs: &[SecSpec]) -> Vec<u8> {
+        let mut out = Vec::new();
+        for (i, s) in specs.iter().enumerate() {
+            let sec = self.sec(i);
+            let cnt = sec.len().clamp(s.min, s.max);
+            out.push((cnt - s.min) as u8);
+            for r in sec.iter().take(cnt) {
+                for k in 0..s.width {
+                    let v = f(r, k) >> 16;
+                    out.push((v >> 8) as u8);
+                    out.push((v & 0xff) as u8);
+                }
+            }
+        }
+        out
+    }
+
     pub fn sec(&self, i: usize) -> &[Vec<u32>] {
         self.secs.get(i).map(|v| v.as_slice()).unwrap_or(&[])
     }
